@@ -528,6 +528,25 @@ func runC18(r *Report) {
 		}
 	}
 
+	// ---- R-C18-6 every decision of the bucket is taken on refilled, capped tokens ------------------
+	// Take decides (and spends) only after refill() brought the count up to date and clamped it to the
+	// capacity: a fast path that spends without refilling leaves the elapsed time in the books, and
+	// the next refill adds it on top of what the idle period had already earned (burst above capacity)
+	if tk := r.P.Fn(secPkg, "TokenBucket.Take"); tk != nil {
+		isRefill := func(in ssa.Instruction) bool {
+			ci, ok := in.(ssa.CallInstruction)
+			return ok && CalleeOf(ci).Name == "refill"
+		}
+		n := 0
+		for _, ret := range Returns(tk) {
+			n++
+			r.Ob("R-C18-6", ret.Pos(), !ReachesWithout(tk, ret, isRefill), "every path through TokenBucket.Take refills (and clamps) the bucket before it decides", "TokenBucket.Take", "refill-before-decision")
+		}
+		if n == 0 {
+			r.Fail("R-C18-6", tk.Pos(), "TokenBucket.Take has no return", "TokenBucket.Take", "refill-before-decision:anchor")
+		}
+	}
+
 	// ---- R-C18-5 guarded-by --------------------------------------------------------
 	guardedBy(r, "R-C18-5", secPkg, "BruteForceProtector", "failures", "mu", map[string]string{"NewBruteForceProtector": "constructor"})
 	guardedBy(r, "R-C18-5", secPkg, "BruteForceProtector", "bannedIPs", "banMu", map[string]string{"NewBruteForceProtector": "constructor"})
